@@ -178,8 +178,25 @@ func TestVerifC03(t *testing.T) {
 				{K: "api", B: 1, SignAs: 1, R: 1, Api: "participants", Users: []hdApiUser{{Id: &hdIdRef{T: "pub", C: 4}, InCall: 1, HasP: true, Perm: []int{4}}}},
 				{K: "api", B: 1, SignAs: 1, R: 1, Api: "incall", Users: []hdApiUser{{Id: &hdIdRef{T: "pub", C: 4}, InCall: 7}}},
 				{K: "api", B: 1, SignAs: 1, R: 1, Api: "disinvite", Users: []hdApiUser{{Id: &hdIdRef{T: "pub", C: 4}}}}}
+			// dial-out requests of the room API go to the dial-out client of the REQUEST'S tenant: tenant 0 has one,
+			// tenant 1 asks (nobody gets it); tenant 1 gets its own (that one gets it); malformed requests, a request
+			// signed by the other tenant, a client that joined a room / lost its connection / resumed
+			dfeat := []string{ClientFeatureStartDialout}
+			dial := func(b, room, variant int) hdOp { return hdOp{K: "api", B: b, SignAs: b, R: room, Api: "dialout", Tag: variant} }
+			wrong := dial(1, 8, 0)
+			wrong.SignAs = 0
+			dialout := []hdOp{{K: "connect", C: 1}, {K: "connect", C: 2}, {K: "connect", C: 3},
+				{K: "hello", C: 1, Ht: "internal", B: 0, Feat: dfeat}, {K: "hello", C: 3, B: 1, U: 1},
+				dial(1, 5, 0), dial(0, 5, 0), dial(0, 5, 1), dial(0, 5, 2), dial(0, 5, 3),
+				{K: "hello", C: 2, Ht: "internal", B: 1, Feat: dfeat},
+				dial(1, 6, 0), dial(0, 7, 0), wrong,
+				hdJoinOp(1, 1, 0), dial(0, 9, 0), dial(1, 9, 0), hdJoinOp(1, 0, 0), dial(0, 10, 0),
+				{K: "drop", C: 2}, dial(1, 11, 0),
+				{K: "connect", C: 4}, {K: "hello", C: 4, Ht: "resume", Id: &hdIdRef{T: "priv", C: 2}}, dial(1, 12, 0), dial(0, 12, 0),
+				{K: "bye", C: 4}, dial(1, 13, 0)}
 			return []*hdCase{
 				{Id: 0, Mode: 1, Ops: clean},
+				{Id: 4, Mode: 1, Ops: dialout},
 				{Id: 3, Mode: 1, Ops: virt},
 				{Id: 1, Mode: 1, Ops: kick, Finding: "C03/room-session-map/global-kick"},
 				{Id: 2, Mode: 1, Ops: grant, Finding: "C03/room-session-map/global-api"},
@@ -488,7 +505,10 @@ func TestVerifC08(t *testing.T) {
 			add(false, hdJoinOp(1, 1, 1), hdJoinOp(2, 2, 2), offer(1, "video", 3), req(2, 1, "video"), hdJoinOp(2, 1, 2), req(2, 1, "video"), incall, req(2, 1, "video"),
 				hdOp{K: "api", B: 0, SignAs: 0, R: 1, Api: "incall", RawRS: true, Users: []hdApiUser{{RS: 2, InCall: 0}}}, req(2, 1, "screen"),
 				hdOp{K: "api", B: 0, SignAs: 0, R: 1, Api: "incall", RawRS: true, Users: []hdApiUser{{RS: 2, InCall: 7}, {RS: 1, InCall: 0}}}, req(2, 1, "screen"),
-				hdJoinOp(2, 0, 0), hdJoinOp(2, 1, 2), req(2, 1, "video"))
+				hdJoinOp(2, 0, 0), hdJoinOp(2, 1, 2), req(2, 1, "video"),
+				// both in the call, the requester leaves the room (others stay) and comes back: it is not in the call any more
+				hdOp{K: "api", B: 0, SignAs: 0, R: 1, Api: "incall", RawRS: true, Users: []hdApiUser{{RS: 2, InCall: 7}, {RS: 1, InCall: 7}}}, req(2, 1, "video"),
+				hdJoinOp(2, 0, 0), hdJoinOp(2, 1, 2), req(2, 1, "screen"), hdJoinOp(2, 2, 2), hdJoinOp(2, 1, 2), req(2, 1, "screen"))
 			return out
 		}})
 }
@@ -560,7 +580,7 @@ func TestVerifC09(t *testing.T) {
 // ---- C19 ----
 func TestVerifC19(t *testing.T) {
 	hdRunProperty(t, hdProp{id: "C19", quick: 110, thorough: 1100, minOps: 20,
-		opts: func(i int) hdGenOpts { return hdGenOpts{api: i%3 == 0, internal: true, virtual: true, messages: true} },
+		opts: func(i int) hdGenOpts { return hdGenOpts{api: i%3 != 2, internal: true, virtual: true, messages: true} },
 		nontrivial: func(c *hdCase, tr string) bool { return hdHas(tr, "IAdd") && hdHas(tr, "mksd") && strings.Contains(tr, " 3 ") },
 		directed: func() []*hdCase {
 			base := []hdOp{{K: "connect", C: 1}, {K: "connect", C: 2}, {K: "connect", C: 3},
@@ -584,6 +604,13 @@ func TestVerifC19(t *testing.T) {
 				{addv(1, 1, 1, 5), addv(1, 2, 1, 6), {K: "bye", C: 1}, toV(2, 1, 1, 14)},
 				{addv(1, 1, 1, 5), addv(1, 2, 1, 6), {K: "drop", C: 1}, {K: "tick", O: 40}, toV(2, 1, 2, 15)},
 				{addv(1, 1, 1, 5), {K: "api", B: 0, SignAs: 0, R: 1, Api: "delete"}, toV(2, 1, 1, 16), rem(1, 1, 1)},
+				// the backend's in-call list names the virtual sessions; one is removed, one goes with a replaced id; the
+				// participants updates that follow (another session added, in-call flags changed, the internal client
+				// leaving the call) repeat the backend's list without the sessions that are gone
+				{addv(1, 1, 1, 5), addv(1, 2, 1, 6),
+					{K: "api", B: 0, SignAs: 0, R: 1, Api: "incall", Users: []hdApiUser{{Id: &hdIdRef{T: "vpub", C: 1, V: 1}, InCall: 7}, {Id: &hdIdRef{T: "vpub", C: 1, V: 2}, InCall: 7}, {RS: 2, InCall: 7}}},
+					rem(1, 1, 1), addv(1, 3, 1, 7), upd(1, 3, 1, 1, 0), addv(1, 2, 1, 8), upd(1, 2, 1, 0, 1),
+					{K: "internal", C: 1, Ik: "incall", InCall: 1}, {K: "internal", C: 1, Ik: "incall", InCall: 0}, rem(1, 2, 1), rem(1, 3, 1), addv(1, 1, 1, 5)},
 				// two internal clients with the same chosen id; an ordinary client trying
 				{addv(1, 1, 1, 5), hdJoinOp(3, 1, 0), addv(3, 1, 1, 6), rem(3, 1, 1), toV(2, 1, 1, 17), toV(2, 3, 1, 18), addv(2, 1, 1, 7), upd(2, 1, 1, 1, 1), rem(2, 1, 1)},
 			} {
